@@ -412,6 +412,7 @@ func corpus6(rng *rand.Rand, n int) [][]byte {
 		}
 		out = append(out, w)
 	}
+	out = append(out, subOptionWires(rng)...)
 	// compressed names (the label set keeps its original bytes)
 	names := []byte{3, 'f', 'o', 'o', 3, 'c', 'o', 'm', 0, 3, 'b', 'a', 'r', 0xc0, 4}
 	for _, code := range []int{24, 39} {
@@ -678,6 +679,36 @@ func genC20(o *Out, rng *rand.Rand, tier string) {
 			p.ClientHWAddr = randBytes(r, []int{17, 20, 32}[kk]) // longer than the 16-byte field (IP over InfiniBand: 20)
 			return subj4(p)
 		}, "oversized-values")
+	}
+	// messages in which options of codes the library has a type for are held as opaque values (put there by a program that
+	// builds options from bytes, or by a custom option parser): the typed accessors then have nothing typed to return - and
+	// nothing to change
+	for k := 0; k < 6; k++ {
+		kk := k
+		exhaustive(func(r *rand.Rand) subject {
+			m := &dhcpv6.Message{MessageType: dhcpv6.MessageTypeReply}
+			copy(m.TransactionID[:], randBytes(r, 3))
+			gen := func(code dhcpv6.OptionCode, o dhcpv6.Option) dhcpv6.Option {
+				return &dhcpv6.OptionGeneric{OptionCode: code, OptionData: o.ToBytes()}
+			}
+			m.AddOption(gen(dhcpv6.OptionClientID, dhcpv6.OptClientID(&dhcpv6.DUIDLL{HWType: 1, LinkLayerAddr: randBytes(r, 6)})))
+			m.AddOption(gen(dhcpv6.OptionDNSRecursiveNameServer, dhcpv6.OptDNS(net.ParseIP("2001:db8::53"))))
+			m.AddOption(gen(dhcpv6.OptionElapsedTime, dhcpv6.OptElapsedTime(1500*time.Millisecond)))
+			m.AddOption(gen(dhcpv6.OptionIANA, randOpt6(r, 3, 2)))
+			m.AddOption(gen(dhcpv6.OptionORO, dhcpv6.OptRequestedOption(dhcpv6.OptionBootfileURL, dhcpv6.OptionDNSRecursiveNameServer)))
+			nonmap := []byte{0x00, 0x7f, 5, 220} // a 4RD non-map rule with a traffic class octet but the T flag clear
+			m.AddOption(&dhcpv6.OptionGeneric{OptionCode: dhcpv6.Option4RD, OptionData: append([]byte{0, 99, 0, 4}, nonmap...)})
+			m.AddOption(gen(dhcpv6.OptionBootfileURL, dhcpv6.OptBootFileURL("http://boot.example/x")))
+			if kk%2 == 1 {
+				m.AddOption(randOpt6(r, 23, 1)) // a typed one after the opaque one of the same code
+				m.AddOption(dhcpv6.OptElapsedTime(time.Second))
+			}
+			if kk >= 4 { // malformed payloads under known codes
+				m.AddOption(&dhcpv6.OptionGeneric{OptionCode: dhcpv6.OptionServerID, OptionData: []byte{0}})
+				m.AddOption(&dhcpv6.OptionGeneric{OptionCode: dhcpv6.OptionIAPD, OptionData: []byte{1, 2, 3}})
+			}
+			return subj6(m)
+		}, "known-codes-held-as-opaque")
 	}
 	// numbers beyond what their wire field can hold, in hand-built values (a program computes a duration and stores it): reading
 	// and printing leave the stored value alone, whatever the encoder makes of it
